@@ -265,7 +265,20 @@ def build_unit(builder, findings):
 
 def process_unit(u, findings, workdir, seed, rlimit_mult=1, variants=('main', 'strict', 'canary')):
     try:
-        return _process_unit(u, findings, workdir, seed, rlimit_mult, variants)
+        ur = _process_unit(u, findings, workdir, seed, rlimit_mult, variants)
+        # a unit may name alternative proof set-ups (e.g. a different data-structure invariant that also implies the property):
+        # the unit holds if any of them verifies completely; the first one's failures are reported otherwise
+        if (ur.failures.get('main') or ur.undecided) and getattr(u, 'alternatives', None):
+            for k, alt in enumerate(u.alternatives):
+                try:
+                    ua = alt()
+                    ura = _process_unit(ua, findings, workdir, seed, rlimit_mult, variants)
+                except Exception:
+                    continue
+                if not ura.failures.get('main') and not ura.undecided and not (set(ura.twins_expected) - ura.twins_failed):
+                    ura.note = 'held under alternative set-up #%d: %s' % (k + 1, ua.title)
+                    return ura
+        return ur
     except ExtractError as e:
         ur = UnitRun(u)
         ur.undecided.append('extraction: %s' % e)
